@@ -120,6 +120,7 @@ func (g *Genome) mutateConnectSensors(innovations InnovationsObserver, _ *neat.O
 			// Now add the new Gene to the Genome
 			if gene != nil {
 				g.geneInsert(gene)
+				g.Phenotype = nil // the cached network does not have the new link
 				linkAdded = true
 			}
 		}
@@ -348,6 +349,7 @@ func (g *Genome) mutateAddNode(innovations InnovationsObserver, nodeIdGenerator 
 	}
 
 	gene.IsEnabled = false
+	g.Phenotype = nil // the cached network still has the link of the split gene
 
 	// Extract the link
 	link := gene.Link
@@ -566,6 +568,8 @@ func (g *Genome) mutateToggleEnable(times int) (bool, error) {
 	if len(g.Genes) == 0 {
 		return false, errors.New("genome has no genes to toggle")
 	}
+	// whatever is toggled below, the cached network no longer expresses this genome
+	g.Phenotype = nil
 	for loop := 0; loop < times; loop++ {
 		// Choose a random gene number
 		geneNum := rand.Intn(len(g.Genes))
@@ -594,6 +598,7 @@ func (g *Genome) mutateGeneReEnable() (bool, error) {
 	for _, gene := range g.Genes {
 		if !gene.IsEnabled {
 			gene.IsEnabled = true
+			g.Phenotype = nil // the cached network does not have the link of the re-enabled gene
 			break
 		}
 	}
